@@ -354,7 +354,7 @@ def trace_validate(ctx, n):
     lines = [l for l in lines if "got" in l]
     fams = {l["inp"]["fam"] for l in lines}
     if fams != {"mounts", "stats", "addrs", "users"} and not errs:
-        raise core.Machinery("vacuity: X17 random driver produced families %s only" % sorted(fams))
+        core.vacuity("X17 random driver produced families %s only" % sorted(fams))
     lines.append(_canary())
     d = tlc.scratch()
     try:
@@ -376,7 +376,7 @@ def trace_validate(ctx, n):
         raise core.Machinery("X17 trace validation judged %d states for %d records" % (r.distinct, len(lines)))
     rej = sorted({int(t[0]) for t in tlc.tagged(r, "REJECTED")})
     if len(lines) not in rej:
-        raise core.Machinery("vacuity: TLC accepted the deliberately wrong record (canary) of the X17 trace")
+        core.vacuity("TLC accepted the deliberately wrong record (canary) of the X17 trace")
     rej = [i for i in rej if i != len(lines)]
     seen = set()
     for i in rej:
@@ -440,7 +440,7 @@ def _vacuity(evs):
     for e in evs:
         fams.setdefault(e["inp"]["fam"], []).append(e)
     if set(fams) != set(FAMS):
-        raise core.Machinery("vacuity: X17 families enumerated: %s" % sorted(fams))
+        core.vacuity("X17 families enumerated: %s" % sorted(fams))
     need = {
         "a root alias resolved to the real device": any(
             any(r["device"] == e["inp"]["root"]["path"] for r in e["out"]["rows"]) for e in fams["rootfs"]),
@@ -463,7 +463,7 @@ def _vacuity(evs):
     }
     missing = [k for k, v in need.items() if not v]
     if missing:
-        raise core.Machinery("vacuity: the enumerated X17 space lacks: %s" % "; ".join(missing))
+        core.vacuity("the enumerated X17 space lacks: %s" % "; ".join(missing))
     return {k: len(v) for k, v in fams.items()}
 
 
